@@ -55,7 +55,7 @@ func (p *c20) Gen(seed uint64, i int, tier string) (any, bool) {
 	nEnum := 200 * len(c20Forms) * len(c20Pos) * 2
 	extra := 30000
 	if tier == "thorough" {
-		extra = 60000
+		extra = 1200000
 	}
 	if i >= nEnum+extra {
 		return nil, false
